@@ -24,6 +24,11 @@ import (
 var defaultErrorHandler = builtin(defaultErrorHandlerFn)
 
 func defaultErrorHandlerFn(intp *Interpreter) error {
+	if len(intp.errors) == 0 {
+		// The handler was executed directly (e.g. "errordict /typecheck get
+		// exec") instead of in response to an error.
+		return intp.e(eUnregistered, "error handler called without a pending error")
+	}
 	return intp.errors[len(intp.errors)-1]
 }
 
